@@ -58,6 +58,39 @@ def mode_dist(p):
     return search(one)
 
 
+def mode_offsets(p):
+    """exact integer reference: integer-grid data with a large common offset (all values < 2^53)"""
+    import dask.array as da
+    from bob.learn.em import KMeansMachine
+    cases = 0
+    for off in (0, 10 ** 4, 10 ** 8):
+        rs = np.random.RandomState(SEED + off % 97)
+        K, D, N = 4, 3, 9
+        cen = (rs.randint(0, 8, size=(K, D)) * 10 + off).astype(float)
+        x = (cen[rs.randint(0, K, size=N)] + rs.randint(-3, 4, size=(N, D))).astype(float)
+        exact = np.array([[sum((int(c[d]) - int(xs[d])) ** 2 for d in range(D)) for xs in x] for c in cen], dtype=float)
+        m = KMeansMachine(K)
+        m.centroids_ = cen
+        variants = [("numpy", x)] + [("dask%s" % (ch,), da.from_array(x, chunks=(ch, D))) for ch in (9, 4, 1, (2, 7))]
+        for nm, data in variants:
+            got = np.asarray(m.transform(data))
+            cases += 1
+            if not np.array_equal(got, exact):
+                return {"reproduced": True, "cases": cases, "input": {"offset": off, "variant": nm}, "observed": got.tolist(), "expected": exact.tolist(),
+                        "what": "squared distances of %s input differ from the exact values at offset %g" % (nm, off)}
+            lab = np.asarray(m.predict(data))
+            if np.any(exact[lab, np.arange(N)] != exact.min(axis=0)):
+                return {"reproduced": True, "cases": cases, "input": {"offset": off, "variant": nm}, "what": "predicted label is not a nearest centroid"}
+        for i in range(3):
+            for data in (x[i], da.from_array(x[i], chunks=(D,))):
+                got = np.asarray(m.transform(data)).reshape(-1)
+                cases += 1
+                if not np.array_equal(got, exact[:, i]):
+                    return {"reproduced": True, "cases": cases, "input": {"offset": off, "variant": "single sample"}, "observed": got.tolist(),
+                            "expected": exact[:, i].tolist(), "what": "single-sample distances differ from the exact values"}
+    return {"reproduced": False, "cases": cases}
+
+
 def mode_varweights(p):
     import dask.array as da
     from bob.learn.em import KMeansMachine
@@ -100,6 +133,14 @@ def mode_criterion(p):
         newc = np.array([x[lab == k].mean(axis=0) for k in range(K)])
         cuts = sorted(set(rs.randint(1, N, size=rs.randint(1, 3)).tolist()))
         chunks = tuple(np.diff([0] + cuts + [N]).tolist())
+        if seed % 3 == 0:
+            c = np.round(c).astype(int)          # initial centroids typed as integers by the caller
+            d = ref_dist(x, c)
+            lab = d.argmin(axis=0)
+            if len(set(lab)) < K:
+                return None
+            true = float(d.min(axis=0).mean())
+            newc = np.array([x[lab == k].mean(axis=0) for k in range(K)])
         for variant, data in (("numpy", x), ("dask%s" % (chunks,), da.from_array(x, chunks=(chunks, D)))):
             m = KMeansMachine(K, init_method=c.copy(), max_iter=1)
             m.fit(data)
